@@ -20,6 +20,7 @@ GLOBAL_ASSUMPTIONS = [
 PROPS = {
     'C05': {
         'units': ['axcut_context'],
+        'kill_units': ['axcut_context'],
         'aux': ['native_linearize'],
         'level': 'other',
         'claim': 'Proved by Verus: the kernels of linearization - fresh_identifier (strictly increasing ids), TypingContext::freshen (same length, kinds and types position-wise equal, a variable is kept iff its id is neither in the clash set nor used at an earlier position, otherwise it receives an id above the old maximum; result ids pairwise distinct and disjoint from the clash set) and TypingContext::filter_by_set (every result binding has its id in the set, comes from the input, no input binding with id in the set is lost, retained bindings keep their positions; both loops terminate; no index or underflow panic). Bounded native contract check of the real Prog::linearize: for thousands of random well-typed non-linear AxCut programs the linearized program is checked against the executable form of the property - at every statement the ordered environment is exactly the list that statement expects (call / invoke / let / switch / create), positions agree in kind and type, substitutions read bound variables and bind pairwise distinct targets, operands remain available - and its behaviour on an AxCut reference machine (consuming, positional discipline) equals that of the source program (named, non-consuming discipline).',
@@ -30,6 +31,7 @@ PROPS = {
     },
     'C06': {
         'units': ['x86_code'],
+        'kill_units': ['x86_code'],
         'aux': ['native_emitters_x86', 'native_moves', 'native_programs_x86'],
         'level': 'proof',
         'claim': 'Every instruction emitter of the x86-64 backend is proved, for all operand placements (registers / spill slots, every aliasing pattern the call sites allow) and all 64-bit contents, to have exactly the effect of the abstract operation on an explicit ISA model, with a full frame (everything but the named scratch locations unchanged). This is the instruction-selection layer of C06, proved without bound; whole-program simulation is not decided.',
@@ -40,6 +42,7 @@ PROPS = {
     },
     'C07': {
         'units': ['a64_code'],
+        'kill_units': ['a64_code'],
         'aux': ['native_emitters_a64', 'native_moves', 'kani_bitkernels', 'native_programs_a64'],
         'level': 'proof',
         'claim': 'Every instruction emitter of the AArch64 backend is proved, for all operand placements and all 64-bit contents, to have exactly the effect of the abstract operation on an explicit A64 model (including the three code paths of rem with their scratch-register clashes and, for load_immediate, the MOVZ/MOVN/MOVK synthesis of every 64-bit literal), with a full frame. Whole-program simulation is not decided.',
@@ -50,6 +53,7 @@ PROPS = {
     },
     'C08': {
         'units': ['rv64_code'],
+        'kill_units': ['rv64_code'],
         'aux': ['native_emitters_rv', 'native_moves', 'native_programs_rv'],
         'level': 'proof',
         'claim': 'Every Instructions method of the RISC-V backend is proved to push instructions whose effect on an RV64 model is exactly the abstract operation (one instruction each; add_and_jump uses the scratch register X1), the variable-to-register map is 2*position + number + 4 with the capacity assertion unreachable below 14 variables, and print_i64 is unreachable for print-free programs. All three backends are proved against the same effect vocabulary (wadd/wsub/wmul/wdiv/wrem, slt/sle), which is the sense in which they agree. Whole-program simulation is not decided.',
@@ -60,6 +64,7 @@ PROPS = {
     },
     'C09': {
         'units': ['x86_memory', 'a64_memory', 'rv64_memory'],
+        'kill_units': ['x86_memory', 'a64_memory', 'rv64_memory'],
         'aux': ['native_moves', 'native_heap'],
         'level': 'other',
         'claim': 'Local contracts of the memory primitives on all three backends are proved by Verus for all placements and all machine states: share_block_n / erase_block (exact count delta; last reference -> the block is pushed on the deferred list with its children untouched; null pointers skipped), release_block, acquire_block (three exhaustive cases; children of a reused deferred block erased one level), store/load of a field and of a value (slot addresses, integer fields store 0 in the pointer slot, a loaded pointer is shared iff the load is non-destructive). Each contract pins the whole post-state (extensional equality of registers and memory), so the frame is proved too. The statement itself - the four-state partition of all blocks and exact counts at every statement boundary of every execution - is an inductive invariant over program histories and is NOT decided; the proved contracts are the per-operation lemmas such a proof would use.',
@@ -70,6 +75,7 @@ PROPS = {
     },
     'C10': {
         'units': ['x86_memory', 'a64_memory', 'rv64_memory'],
+        'kill_units': ['x86_memory', 'a64_memory', 'rv64_memory'],
         'aux': ['native_heap'],
         'level': 'proof',
         'claim': 'Sentence 1 of the property is the postcondition of acquire_block, proved on all three backends for every machine state: its three cases are exhaustive and exclusive (reusable-list link non-zero / else deferred-list link non-zero / else neither), and only in the third does the frontier register receive an address not already held in the state, namely old frontier + 64 (one block). Every other verified emitter has the frontier register in its frame (erase_block sets it to a block that is already below the frontier). Sentence 2 (space independent of iteration count) is a corollary over histories and is given informally, not counted as an obligation.',
@@ -80,6 +86,7 @@ PROPS = {
     },
     'C11': {
         'units': ['x86_moves', 'a64_moves', 'rv64_moves', 'a64_code', 'rv64_code', 'x86_code'],
+        'kill_units': ['x86_moves', 'a64_moves', 'rv64_moves'],
         'aux': ['native_moves'],
         'level': 'other',
         'claim': 'Backend pieces of the parallel-moves algorithm (mov, store_temporary, restore_temporary) are proved by Verus for all placements; the generic forest algorithm, the reference-count dispatch and their composition through the real Substitute::code_statement are checked exhaustively for every map of m<=5 new to n<=5 old variables, every kind assignment and every window offset across each register/spill boundary on all three backends (m,n<=4 in the quick tier), by executing the emitted code on a machine model with distinct tokens. The exhaustive part is a bounded check, not a proof.',
@@ -90,6 +97,7 @@ PROPS = {
     },
     'C13': {
         'units': ['x86_routine', 'a64_routine', 'x86_code', 'a64_code'],
+        'kill_units': ['x86_routine', 'a64_routine'],
         'aux': ['native_prints'],
         'level': 'other',
         'claim': 'Prologue, epilogue and argument shuffle of the x86-64 routine are proved by Verus over the ISA model (callee-saved registers and rsp restored, result register untouched by the epilogue, stack-pointer alignment arithmetic, heap/free initialisation). The save/align/call/restore sequence around the print runtime and the whole routine skeleton (both backends) are checked by a bounded native contract check for 1..20 live variables x kind assignments x argument positions and 0..5 / 0..7 entry arguments, on machine models whose call destroys all caller-saved state and faults on a misaligned stack pointer.',
@@ -100,6 +108,7 @@ PROPS = {
     },
     'C20': {
         'units': ['x86_routine', 'a64_routine'],
+        'kill_units': ['x86_routine', 'a64_routine'],
         'aux': ['cbmc_io', 'cbmc_driver', 'native_prints'],
         'level': 'other',
         'claim': 'Generated C driver: proved by CBMC (complete: loop-free up to the fixed argument count, all 64-bit values) for 0..7 parameters - wrong argument count is reported and nothing runs, otherwise every decimal argument reaches its parameter unchanged and in order and the result of main is the result of asm_main. Argument shuffle move_arguments (x86-64): proved by Verus as one simultaneous assignment. io.c: CBMC on the real file; quick tier: all values -9999..9999 symbolically plus all boundary constants (bounded); thorough tier: the whole int64 domain partitioned into digit classes (complete iff every class finishes within its time cap). Whole-routine execution with 0..5 / 0..7 parameters on the machine models (bounded).',
